@@ -6,5 +6,7 @@ pub mod c05;
 pub mod c06;
 #[cfg(kani)]
 pub mod sops;
+#[cfg(kani)]
+pub mod firstpoll;
 #[cfg(all(feature = "verif-native", not(kani)))]
 pub mod xval;
